@@ -1,6 +1,6 @@
 """Per-property configuration of ./check."""
 
-HOOK_COMMITS = ["93c5b5f", "7b65bb1", "563f8ff", "154b503", "b4271c3"]
+HOOK_COMMITS = ["93c5b5f", "7b65bb1", "563f8ff", "154b503", "b4271c3", "cde17b7", "d2f58b6"]
 
 COMMON_ASSUME = [
     "the hand-written Lean model is faithful to /repo only as far as this run's correspondence sampled it",
@@ -97,7 +97,45 @@ LOAD_ASSUME = COMMON_ASSUME + [
 LOAD_TB = ["scanner.rs, parse.rs, eval.rs, load.rs (up to opening the log), graph.rs add_build/remove_duplicates modelled completely; format_parse_error modelled at byte level",
            "calc_evaluated_length (a capacity hint) is not modelled"]
 
+def _hist_nontrivial(case, impl):
+    # non-trivial: at least two invocations that started commands, and one that started none
+    invs = impl.split(" %% ")[0].split(" ; ")
+    with_starts = sum(1 for x in invs if " B " in x)
+    return with_starts >= 2 and with_starts < len(invs)
+
+HIST_RULE = ("400 (quick) / 8000 (thorough) random projects (2-6 steps over 4 sources and 3 headers: plain, gcc-depfile, "
+             "msvc /showIncludes, rspfile and phony steps; explicit/implicit/order-only/validation inputs; optional "
+             "manifest generator `build build.ninja: gen build.ninja.in`) each with a history of 5-15 operations: invoke "
+             "(-j 1-3, -k none/1-2, target subsets and spellings, occasional -t restat, immediate re-invocation), edit / "
+             "touch / delete sources and headers, delete / tamper outputs, edit the manifest (comment, rename all rules, "
+             "reorder statements, change a flag, remove a step, add an input). Played against the REAL n2 in-process in a "
+             "real temp dir with logical mtimes; commands follow the shared semantics (content digest of inputs and "
+             "reported deps; deps = #name tokens of the explicit inputs, written to a real depfile / as 'Note: including "
+             "file' lines; !fail / !int tokens). Compared per invocation: full transition trace, result, and the whole "
+             "tree (names, mtimes, contents); the log bytes are checked against the abstract log. Non-trivial = at least "
+             "two invocations that started commands and one that started none")
+HIST_ASSUME = COMMON_ASSUME + [
+    "A-hash: 64-bit hash collisions do not occur and std's Hash serialisation is unambiguous (the model's hash is the manifest itself)",
+    "A-mtime / A-quiet / A-writes: every content change comes with an mtime change, nothing else writes the tree during an invocation, a command writes exactly its declared outputs (the generator respects these; phony aliases are not used as dirtying inputs)",
+    "completion order and HashSet iteration order are taken from the observed trace; everything else (which steps are dirty, what is recorded, the tree) is computed by the model",
+    "theorems are at decision level (check_build_dirty / record_finished / run::build structure); the whole-history statement is checked by monitors on every generated history, not yet proved by induction over histories",
+]
+HIST_TB = ["work.rs check_build_dirty/ensure_input_files/stat_all_outputs/record_finished/FileState cache, hash.rs manifest, db attribution by name, load.rs, run.rs phases and reload, scheduler: all modelled and composed (Model/Work.lean `invoke`)",
+           "killed invocations and real process execution are not part of this mode"]
+
+def _hist(claim, props, monitors):
+    return {"claim": claim, "props": props, "modes": ["hist"], "level": "proof", "nontrivial": {"hist": _hist_nontrivial},
+            "rule": HIST_RULE, "assumptions": HIST_ASSUME, "trusted_base": HIST_TB, "monitors": monitors}
+
 PROPS = {
+    "C02": _hist("Lean 4 theorems about the manifest rule: a non-phony step is judged clean only if no named file is missing, a completion record exists and its manifest equals the manifest of the files as they are now; the check is read-only; record_finished appends exactly one record carrying the manifest of the re-stat()ed post-command state, or nothing when a file is missing; the manifest names exactly dirtying inputs, discovered deps, outputs (with mtimes), command line and rspfile. The composed world model (loader + log + scheduler + dirtiness + command semantics) reproduces the real n2 on every generated history (traces, results, whole tree), and the monitors cleanEq (contents of the requested closure = from-scratch build, computed by the Lean model) and logAgrees are evaluated on the implementation's tree and log.",
+                 ["C02"], ["cleanEq", "logAgrees"]),
+    "C03": _hist("Lean 4 theorems: a step is judged dirty only if a named file is missing, or it has no record, or the recorded manifest differs (and is clean when none of these holds); phony steps never run; order-only/validation inputs do not enter the manifest; the manifest depends on the stat cache only through the mtimes of the files it names (an upstream re-run that keeps timestamps dirties nothing); -t restat touches no file. Tied by exact agreement of the world model with the real n2 on histories; monitors noopAfterSuccess (an invocation right after a successful one of the same targets starts nothing and reports 0 tasks, whenever every named file and reported dependency exists) and restatRunsNothing on the implementation's traces.",
+                 ["C03"], ["noopAfterSuccess", "restatRunsNothing"]),
+    "C09": _hist("Lean 4 theorems: record_finished REPLACES the discovered-dependency list by what it keeps of the new report — canonicalised, without duplicates, without declared dirtying inputs (order-only inputs may stay); a vanished discovered dependency yields 'dirty', never an error; discovered dependencies are not in the scheduler's ordering inputs. Tied by the world model (real depfiles written and parsed, real /showIncludes filtering) and the monitor logAgrees: the implementation's log bytes decode to exactly the model's records by name (outputs, dependency lists) with the same hash-equality pattern.",
+                 ["C09"], ["logAgrees"]),
+    "C17": _hist("Lean 4 theorems about run::build: a reload is requested exactly when the manifest phase succeeded having run n != 0 commands (then no failure is on record and nothing is pending); if the phase does not succeed, build returns there (never success, never reload); after a reload the rest is a function of the reloaded graph and a fresh Work only; with an up-to-date manifest phase 2 continues on the same scheduler state. Tied by histories with a generator step that copies build.ninja.in (edited by the history) — the model reloads its own manifest text; monitors regenFirst (commands of the first Work lie in the manifest's producer cone when a reload follows) and reloadIffRan on the implementation's traces.",
+                 ["C17"], ["regenFirst", "reloadIffRan"]),
     "C10": {"claim": "Lean 4 theorems about the parser/loader model: the section counts of every parsed build line partition its path lists in declared order for all emptiness patterns (proof through the monadic parser by bind inversion); reading further sections only appends; one file id per declared path; adjacent/empty literal parts left by escapes and continuations evaluate like their concatenation. The whole-file round trip parse∘render is validated, not yet proved: the real loader and the model agree on every generated manifest and the monitor spellingIndependent (plain vs noisy spelling load to the same graph, line numbers masked) is evaluated in Lean on the implementation's dumps.",
             "props": ["C10"], "modes": ["load"], "level": "proof", "nontrivial": {"load": _load_nontrivial},
             "rule": LOAD_RULE, "assumptions": LOAD_ASSUME, "trusted_base": LOAD_TB,
